@@ -117,10 +117,10 @@ def node_ins(node) -> list[str]:
 def in_scope(node) -> bool:
     """The property's quantifier: acyclic name-based dependency graph, chains listed in a valid order."""
     t = node["t"]
-    if set(node_ins(node)) & set(node_outs(node)):
-        # an input that is also an output is a self-coupling (CouplingStructure.is_self_coupled): the
-        # composition has a cycle; MDAChain would solve it with an MDA.  Probed only.
-        return False
+    # An input that is also an output of the same discipline/process is an OVERWRITTEN variable
+    # ("pass-through and overwritten variables" of the quantifier): the process reads the value it
+    # receives and returns the new one; as a data flow the composition is acyclic.  Only an MDAChain
+    # gives it another meaning (a self-coupling solved by an MDA, C07): excluded under "M" below.
     if t == "L":
         return True
     if not all(in_scope(k) for k in node["kids"]):
@@ -137,6 +137,8 @@ def in_scope(node) -> bool:
         return True
     if t == "M":
         if any(k["t"] != "L" for k in kids):
+            return False
+        if set(node_ins(node)) & set(node_outs(node)):
             return False
         seen: set[str] = set()
         for k in kids:
@@ -274,7 +276,7 @@ def exact_ok(case) -> bool:
         M = prod_leaves (1 + sum |entries|'), checked M * 2^K < 2^52.
     """
     sizes = case["sizes"]
-    for req in case["reqs"]:
+    for req in [r for q in case["reqs"] for r in ([{"point": p} for p in q.get("pre", [])] + [q])]:
         ok = [True]
 
         def visit(leaf, env, ok=ok):
@@ -319,6 +321,8 @@ def exact_ok(case) -> bool:
 # =========================================================================== generator
 
 _ALPHA = "abcdefghijklmnopqrstuvwxyz"
+# cache of a process (chain, parallel/additive chain, MDAChain): default one-entry cache, none, all evaluations
+_PROC_CACHES = ["SimpleCache"] * 4 + [""] + ["MemoryFullCache"] * 2
 
 
 class Gen:
@@ -393,15 +397,22 @@ class Gen:
         """A sub-process reading among `avail` (extended with fresh chain inputs), never writing `forbidden`."""
         rng = self.rng
         if kind == "L":
-            ins = self.pick_ins(avail)
-            outs = [self.fresh() for _ in range(rng.pick([1, 1, 1, 2, 2, 3]))]
-            # overwritten variables: rewrite an existing variable nobody has read since (dead write),
-            # or one of the discipline's own inputs (an input that is also an output)
-            cands = [v for v in avail if v not in forbidden and (not self.scope or v not in ins)]
+            selfw = rng.chance(0.22)
+            ins = self.pick_ins(avail, lo=rng.pick([1, 2, 2, 3]) if selfw else 1)
+            outs = [self.fresh() for _ in range(rng.pick([1, 1, 1, 2, 2, 3]) if not selfw else rng.pick([0, 0, 1, 1, 2]))]
+            # overwritten variables: rewrite an existing variable nobody has read since (dead write) ...
+            cands = [v for v in avail if v not in forbidden and v not in ins]
             if cands and rng.chance(0.18):
                 v = rng.pick(cands)
                 if v not in outs:
                     outs.append(v)
+            # ... or update in place 1-3 of the discipline's own inputs (inputs that are also outputs);
+            # every output depends on every input (cross-dependence) unless a block is structurally zero
+            own = [v for v in ins if v not in forbidden]
+            if selfw and own:
+                outs += rng.sample(own, min(len(own), rng.pick([1, 2, 2, 3])))
+            if not outs:
+                outs.append(self.fresh())
             if not self.scope and rng.chance(0.5) and forbidden:
                 v = rng.pick(sorted(forbidden))
                 if v not in outs:
@@ -424,7 +435,7 @@ class Gen:
             for v in loc_avail:
                 if v not in avail:
                     avail.append(v)
-            return {"t": "C", "kids": kids, "cache": rng.pick(["SimpleCache"] * 5 + ["", "MemoryFullCache"])}
+            return {"t": "C", "kids": kids, "cache": rng.pick(_PROC_CACHES)}
         if kind in ("P", "A"):
             n = rng.pick([1, 2, 2, 3, 3]) if kind == "P" else rng.pick([2, 2, 3])
             kids = []
@@ -460,7 +471,7 @@ class Gen:
             node = {"t": kind, "kids": kids}
             if kind == "A":
                 node["sums"] = sums
-            node["cache"] = rng.pick(["SimpleCache"] * 5 + ["", "MemoryFullCache"])
+            node["cache"] = rng.pick(_PROC_CACHES)
             if rng.chance(0.3):
                 node["nproc"] = 1
             if kind == "P" and rng.chance(0.3):
@@ -479,7 +490,7 @@ class Gen:
                 if v not in avail:
                     avail.append(v)
             rng.shuffle(kids)
-            return {"t": "M", "kids": kids, "par": rng.chance(0.3)}
+            return {"t": "M", "kids": kids, "par": rng.chance(0.3), "cache": rng.pick(_PROC_CACHES)}
         raise ValueError(kind)
 
     def _add_out(self, leaf, name: str) -> None:
@@ -525,9 +536,23 @@ def gen_case(rng: common.Rng, scope: bool = True, top: str | None = None) -> dic
             used |= {n for n, _ in l["spec"]["ins"]} | {n for n, _ in l["spec"]["outs"]}
         case["sizes"] = {n: s for n, s in g.sizes.items() if n in used}
         point = gen_point(rng, case, ins)
+        visited: list[dict] = []
         for _ in range(rng.pick([1, 1, 2, 2, 3, 4])):
-            if rng.chance(0.35):
+            r = rng.random()
+            if case["reqs"] and r < 0.35:
                 point = gen_point(rng, case, ins)
+            elif case["reqs"] and r < 0.60:
+                others = [q for q in visited if q != point]
+                if others:
+                    point = rng.pick(others)  # a point visited earlier in the history (revisit)
+            # plain executions between two linearizations (at a new point or at a visited point)
+            pre = []
+            if rng.chance(0.3):
+                for _ in range(rng.pick([1, 1, 2])):
+                    pre.append(rng.pick(visited) if visited and rng.chance(0.4) else gen_point(rng, case, ins))
+            for q in [*pre, point]:
+                if q not in visited:
+                    visited.append(q)
             r_in = rng.sample(ins, min(len(ins), rng.pick([1, 1, 2, 2, 3, len(ins)])))
             r_out = rng.sample(outs, min(len(outs), rng.pick([1, 1, 2, 2, 3, len(outs)])))
             if case["reqs"] and rng.chance(0.15):
@@ -535,6 +560,8 @@ def gen_case(rng: common.Rng, scope: bool = True, top: str | None = None) -> dic
             if case["reqs"] and rng.chance(0.15):
                 r_out = []
             req = {"in": r_in, "out": r_out, "all": rng.chance(0.12), "point": dict(point)}
+            if pre:
+                req["pre"] = [dict(q) for q in pre]
             # the public ways of asking: explicit names, "all inputs"/"all outputs" (no argument),
             # compute_all_jacobians; and of passing the point: fresh arrays, the SAME arrays updated in
             # place, the default inputs, execute() first then linearize(execute=False)
@@ -546,9 +573,11 @@ def gen_case(rng: common.Rng, scope: bool = True, top: str | None = None) -> dic
                 req["how"] = "all-out"
                 req["out"] = list(outs)
             req["call"] = rng.pick(["point", "point", "point", "inplace", "inplace", "defaults", "exec-first", "adapter"])
-            if req["call"] == "adapter" and (req["all"] or any(l["spec"]["kind"] == "operator" for l in leaves(proc))):
+            if req["call"] == "adapter" and (req["all"] or set(ins) & set(outs) or any(l["spec"]["kind"] == "operator" for l in leaves(proc))):
                 req["call"] = "point"  # DisciplineAdapter concatenates arrays: no operators, explicit names
             case["reqs"].append(req)
+        if len({json.dumps(q["point"], sort_keys=True) for q in case["reqs"]}) < len(case["reqs"]) and proc["t"] != "L" and rng.chance(0.4):
+            proc["cache"] = "MemoryFullCache"  # histories coming back to a point: keep all the evaluations
         if exact_ok(case):
             return case
     raise RuntimeError("generator could not produce an exact in-scope case")
@@ -703,6 +732,7 @@ def impl_run(case) -> dict[str, Any]:
     for req in case["reqs"]:
         for d in order:
             d.calls.clear()
+            d.lin_data.clear()
         cum_in += [n for n in req["in"] if n not in cum_in]
         cum_out += [n for n in req["out"] if n not in cum_out]
         step: dict[str, Any] = {}
@@ -720,6 +750,8 @@ def impl_run(case) -> dict[str, Any]:
         how = req.get("how", "names")
         try:
           with contextlib.redirect_stderr(io.StringIO()):  # worker threads print their tracebacks
+            for q in req.get("pre", []):
+                obj.execute({n: np.array([float(Fraction(v)) for v in vals]) for n, vals in q.items()})
             if how == "all-in":
                 obj.add_differentiated_inputs()
             elif req["in"]:
@@ -784,6 +816,10 @@ def impl_run(case) -> dict[str, Any]:
             break
         step["calls"] = {
             i: (sorted(set(d.calls[-1][0])), sorted(set(d.calls[-1][1]))) for i, d in enumerate(order) if d.calls
+        }
+        # the data every leaf held when it was asked for its partial derivatives (its linearization point)
+        step["lin_at"] = {
+            i: {n: [F(e) for e in d.lin_data[-1][n]] for n in d.lin_data[-1]} for i, d in enumerate(order) if d.lin_data
         }
         res["steps"].append(step)
     return res
@@ -895,7 +931,9 @@ def _valid(case, scope=True) -> bool:
                 return False
             if set(r["point"]) != set(ins):
                 return False
-            if r.get("call") == "adapter" and (r["all"] or any(l["spec"]["kind"] == "operator" for l in leaves(proc))):
+            if r.get("call") == "adapter" and (r["all"] or set(ins) & set(outs) or any(l["spec"]["kind"] == "operator" for l in leaves(proc))):
+                return False
+            if any(set(q) != set(ins) for q in r.get("pre", [])):
                 return False
             if r.get("how") == "all-in" and set(r["in"]) != set(ins):
                 return False
@@ -932,8 +970,13 @@ def _fix_points(case):
     for l in leaves(case["proc"]):
         used |= {n for n, _ in l["spec"]["ins"]} | {n for n, _ in l["spec"]["outs"]}
     case["sizes"] = {n: k for n, k in case["sizes"].items() if n in used}
+    def fix(pt):
+        return {n: pt.get(n, ["0"] * case["sizes"][n])[: case["sizes"][n]] + ["0"] * max(0, case["sizes"][n] - len(pt.get(n, []))) for n in ins}
+
     for r in case["reqs"]:
-        r["point"] = {n: r["point"].get(n, ["0"] * case["sizes"][n])[: case["sizes"][n]] + ["0"] * max(0, case["sizes"][n] - len(r["point"].get(n, []))) for n in ins}
+        r["point"] = fix(r["point"])
+        if "pre" in r:
+            r["pre"] = [fix(q) for q in r["pre"]]
         r["in"] = list(ins) if r.get("how") == "all-in" else [n for n in r["in"] if n in ins]
         r["out"] = list(node_outs(case["proc"])) if r.get("how") == "all-out" else [n for n in r["out"] if n in node_outs(case["proc"])]
 
@@ -955,6 +998,12 @@ def shrink_candidates(case):
         if r["all"]:
             c = copy.deepcopy(case)
             c["reqs"][i]["all"] = False
+            yield c
+        for j in range(len(r.get("pre", []))):
+            c = copy.deepcopy(case)
+            del c["reqs"][i]["pre"][j]
+            if not c["reqs"][i]["pre"]:
+                del c["reqs"][i]["pre"]
             yield c
         if r.get("call", "point") != "point" or r.get("how"):
             c = copy.deepcopy(case)
@@ -981,6 +1030,11 @@ def shrink_candidates(case):
                 m["kids"][j : j + 1] = m["kids"][j]["kids"]
                 _fix_points(c)
                 yield c
+    for ni, n in enumerate(nodes):
+        if n["t"] != "L" and n.get("cache", "SimpleCache") != "SimpleCache":
+            c = copy.deepcopy(case)
+            list(_all_nodes(c["proc"]))[ni]["cache"] = "SimpleCache"
+            yield c
     if case["proc"]["t"] != "L" and len(case["proc"]["kids"]) == 1 and case["proc"]["kids"][0]["t"] != "L":
         c = copy.deepcopy(case)
         c["proc"] = c["proc"]["kids"][0]
@@ -1101,6 +1155,8 @@ def rename(case, mapping):
         q["in"] = [r(n) for n in q["in"]]
         q["out"] = [r(n) for n in q["out"]]
         q["point"] = {r(n): v for n, v in q["point"].items()}
+        if "pre" in q:
+            q["pre"] = [{r(n): v for n, v in pt.items()} for pt in q["pre"]]
     return c
 
 
@@ -1136,8 +1192,18 @@ def neighbours(case, rng):
                 yield c
     for _ in range(3):
         c = copy.deepcopy(case)
+        moved: dict[str, dict] = {}
+
+        def move(pt, c=c, moved=moved):
+            k = json.dumps(pt, sort_keys=True)
+            if k not in moved:
+                moved[k] = gen_point(rng, c, node_ins(c["proc"]))
+            return dict(moved[k])
+
         for q in c["reqs"]:
-            q["point"] = gen_point(rng, c, node_ins(c["proc"]))
+            q["point"] = move(q["point"])
+            if "pre" in q:
+                q["pre"] = [move(pt) for pt in q["pre"]]
         yield c
     c = copy.deepcopy(case)
     for q in c["reqs"]:
@@ -1146,6 +1212,42 @@ def neighbours(case, rng):
 
 
 # =========================================================================== run
+
+
+def _pt_key(pt) -> str:
+    return json.dumps(pt, sort_keys=True)
+
+
+def history_tags(case) -> set[str]:
+    """Features of the sequence of points of a history."""
+    tags: set[str] = set()
+    seq: list[str] = []
+    for r in case["reqs"]:
+        for q in r.get("pre", []):
+            seq.append(_pt_key(q))
+            tags.add("plain-execute-between-requests")
+        k = _pt_key(r["point"])
+        if k in seq and seq[-1] != k:
+            tags.add("revisited-point")  # back to a point evaluated earlier, another point in between
+        seq.append(k)
+    return tags
+
+
+def overwrite_tags(case) -> set[str]:
+    tags: set[str] = set()
+    for l in leaves(case["proc"]):
+        sp = l["spec"]
+        both = {n for n, _ in sp["ins"]} & {n for n, _ in sp["outs"]}
+        if both:
+            tags.add("self-overwrite")
+        if len(both) >= 2:
+            tags.add("self-overwrite>=2-vars")
+        if any(t[0] in both or t[2] in both for comps in sp["poly"].values() for c in comps for t in c.get("quad", [])):
+            tags.add("self-overwrite:nonlinear")
+    for n in _all_nodes(case["proc"]):
+        if n["t"] != "L" and set(node_ins(n)) & set(node_outs(n)):
+            tags.add("process-input-also-output")
+    return tags
 
 
 def fine_key(key: str, small) -> str:
@@ -1162,8 +1264,12 @@ def fine_key(key: str, small) -> str:
     lk = sorted({l["spec"]["kind"] for l in leaves(small["proc"])} - {"dense"})
     if lk:
         tags.append("jac=" + "+".join(lk))
-    if len(small["reqs"]) > 1:
+    if "self-overwrite" in overwrite_tags(small):
+        tags.append("self-overwrite")
+    if len(small["reqs"]) > 1 or any(r.get("pre") for r in small["reqs"]):
         tags.append("history")
+    if "revisited-point" in history_tags(small):
+        tags.append("revisit")
     if any(r["all"] for r in small["reqs"]):
         tags.append("compute-all")
     return key + "|" + ",".join(tags)
@@ -1185,8 +1291,8 @@ def features(case) -> list[str]:
     for l in leaves(case["proc"]):
         for o, _ in l["spec"]["outs"]:
             writers[o] = writers.get(o, 0) + 1
-        if {n for n, _ in l["spec"]["ins"]} & {n for n, _ in l["spec"]["outs"]}:
-            f.append("self-overwrite")
+        if any(c.get("quad") for comps in l["spec"]["poly"].values() for c in comps):
+            f.append("nonlinear-leaf")
         f.append("kind=" + l["spec"]["kind"])
         f.append("cache=" + (l["spec"].get("cache", "SimpleCache") or "none"))
     if any(v > 1 for v in writers.values()):
@@ -1204,6 +1310,12 @@ def features(case) -> list[str]:
             f.append("parallel:use_deep_copy")
         if n.get("nproc"):
             f.append("parallel:n_processes=1")
+    f += sorted(overwrite_tags(case)) + sorted(history_tags(case))
+    multi = [n["t"] for n in _all_nodes(case["proc"]) if n["t"] != "L" and n.get("cache") == "MemoryFullCache"]
+    if "revisited-point" in history_tags(case) and multi:
+        f.append("revisited-point+process-MemoryFullCache")
+        if case["proc"].get("cache") == "MemoryFullCache":
+            f.append("revisited-point+top-MemoryFullCache:top=" + case["proc"]["t"])
     if len({json.dumps(r["point"], sort_keys=True) for r in case["reqs"]}) > 1:
         f.append("several-points")
     if any(s > 1 for s in case["sizes"].values()):
